@@ -102,6 +102,8 @@ def build(tier, seed):
                         func=(QS, "QuantumScript.hash"), replay=lambda w: fingerprint_replay(w),
                         sample="equal fingerprints => equal (op hashes, measurement hashes, trainable params, shots)"))
     measurement_hash_obligations(plan, tier)
+    memoised_fingerprint_obligations(plan, tier, seed)
+    key_function_obligations(plan, tier, seed)
     return plan
 
 
@@ -374,3 +376,166 @@ def mp_hash_replay(cls, w):
         return dict(confirmed=bool(hash(a) == hash(b) and repr(a) != repr(b)), hash_equal=hash(a) == hash(b), A=repr(a), B=repr(b))
     except Exception as ex:  # pylint: disable=broad-except
         return dict(confirmed=None, note=f"replay construction failed: {type(ex).__name__}: {ex}")
+
+
+# ---- (e) a memoised fingerprint never outlives the data it was computed from -----------------------------------------------------
+def memoised_fingerprint_obligations(plan, tier, seed):
+    """QuantumScript.hash is a cached_property; `copy(**update)` builds the new script.  The copy contracts of C40 (real AST of
+    QuantumScript.copy on scripts whose fingerprint has been memoised) carry the C05 clause: a memoised fingerprint travels with the
+    copy only when operations, measurements, trainable indices and shots are all the original's.  The same obligations are part
+    of this property under C05 names."""
+    from contracts import C40
+    p40 = C40.build(tier, seed)
+    n = 0
+    for ob in p40.obligations:
+        if "QuantumScript.copy/" in ob.name and ("/ops[1]-meas[]/" in ob.name or "/ops[1,0,2]-meas[-,1]/" in ob.name) and ob.name.endswith("trainable-unset"):
+            ob.name = ob.name.replace("C40/", "C05/", 1)
+            plan.add(ob)
+            n += 1
+    plan.fn_under_contract("pennylane/core/qscript.py", "QuantumScript.copy")
+    plan.notes["memoised_fingerprint_cases"] = n
+
+
+# ---- (f) the key functions lose nothing but the documented reductions ------------------------------------------------------------------
+def key_function_obligations(plan, tier, seed):
+    """(f1) relational E1 on the nested `_mod_and_round` helpers: executed symbolically on TWO complex inputs; equal outputs imply
+    equal inputs up to the documented reductions (10-decimal rounding; the period for the periodic names, whose angles are real).
+    (f2) bounded: the REAL operator hashes of structured pairs of operators that differ in exactly one respect (imaginary part,
+    one entry in the middle of a large matrix, a bool flag ...) must differ."""
+    import z3 as _z3
+    from vf.pyvc.engine import World, Ctx, FloatV, Model, Unsupp, RaiseExc, ReturnExc
+    from vf.pyvc.interp import Interp
+
+    class Cx(Model):
+        """a complex number (re, im)"""
+
+        def __init__(self, re, im):
+            self.re, self.im = re, im
+
+        def vf_eq(self, other):
+            if isinstance(other, Cx):
+                return _z3.And(self.re == other.re, self.im == other.im)
+            if isinstance(other, FloatV):
+                return _z3.And(self.re == other.t, self.im == 0)
+            return False
+
+    ROUND = _z3.Function("round10", _z3.RealSort(), _z3.RealSort())
+
+    def b_real(it, a, k):
+        x = a[0]
+        return FloatV(x.re) if isinstance(x, Cx) else x
+
+    def b_round(it, a, k):
+        x = a[0]
+        if isinstance(x, Cx):
+            return Cx(ROUND(x.re), ROUND(x.im))
+        return FloatV(ROUND(x.t))
+
+    class Arr(Model):
+        dtype = "numeric"
+
+    for file, qual in ((BASE, "_process_data.<locals>._mod_and_round"), (OP2, "_canonicalize_dynamic.<locals>._mod_and_round")):
+        for mode in ("no-period", "period"):
+            def fn(file=file, qual=qual, mode=mode):
+                try:
+                    w = World(file, functions=[qual], extra_builtins={"qp.math.real": b_real, "qp.math.round": b_round,
+                                                                      "qp.math.asarray": lambda it, a, k: Arr()})
+                    ctx = Ctx(w, [], 20000)
+                    it = Interp(ctx, None)
+                    outs, ins = [], []
+                    m = None if mode == "no-period" else FloatV(_z3.Real("period"))
+                    if m is not None:
+                        ctx.assume(m.t > 0)
+                    for tag in ("A", "B"):
+                        x = Cx(_z3.Real(f"re_{tag}"), _z3.Real(f"im_{tag}"))
+                        if mode == "period":
+                            ctx.assume(x.im == 0)          # the periodic names are rotation angles: real
+                        ins.append(x)
+                        outs.append(it.call_user(w.functions[qual], [x, m], {}, None))
+                    same_key = it.equal(outs[0], outs[1])
+                    from vf.pyvc.interp import PY_FMOD
+                    if mode == "no-period":
+                        same_val = _z3.And(ROUND(ins[0].re) == ROUND(ins[1].re), ROUND(ins[0].im) == ROUND(ins[1].im))
+                        if qual.startswith("_process_data"):
+                            same_val = _z3.And(ins[0].re == ins[1].re, ins[0].im == ins[1].im)      # no rounding at all there
+                    else:
+                        same_val = ROUND(PY_FMOD(ins[0].re, m.t)) == ROUND(PY_FMOD(ins[1].re, m.t))
+                    s = _z3.Solver()
+                    set_budget(s, 20000)
+                    s.add(*ctx.pc)
+                    s.add(same_key if not isinstance(same_key, bool) else _z3.BoolVal(same_key))
+                    s.add(_z3.Not(same_val))
+                    r = s.check()
+                except (Unsupp, RaiseExc) as ex:
+                    return Outcome(UNDECIDED, "pyvc", f"extractor refused: {type(ex).__name__}: {ex}")
+                if r == _z3.unsat:
+                    return Outcome(DISCHARGED, "z3", "equal keys imply equal values up to the documented reductions")
+                if r == _z3.sat:
+                    md = s.model()
+                    wit = {str(d): str(md[d]) for d in md.decls() if str(d).startswith(("re_", "im_", "period"))}
+                    return Outcome(REFUTED, "z3", "two different values share a key", witness=wit, replay=key_replay(wit))
+                return Outcome(UNDECIDED, "z3", "solver unknown")
+            plan.add(Obligation(f"C05/{file.split('/')[-1][:-3]}:{qual}/{mode}/post:key-separates-values", "post", fn, func=(file, qual), timeout=120,
+                                sample="relational: _mod_and_round(x) == _mod_and_round(y) => x == y up to rounding / period"))
+            plan.fn_under_contract(file, qual)
+
+    def separation():
+        import numpy as np
+        pairs = []
+        t = 0.4321
+        D1, D2 = np.array([np.exp(-1j * t / 2), np.exp(1j * t / 2)]), np.array([np.exp(1j * t / 2), np.exp(-1j * t / 2)])
+        pairs.append(("QubitUnitary U vs conj(U)", qp.QubitUnitary(np.diag(D1), wires=0), qp.QubitUnitary(np.diag(D2), wires=0)))
+        pairs.append(("DiagonalQubitUnitary d vs conj(d)", qp.DiagonalQubitUnitary(D1, wires=0), qp.DiagonalQubitUnitary(D2, wires=0)))
+        for n in (5, 6):
+            U1, U2 = np.eye(2 ** n, dtype=complex), np.eye(2 ** n, dtype=complex)
+            i, j = 2 ** (n - 1) - 1, 2 ** (n - 1)
+            U2[i, i] = U2[j, j] = 0
+            U2[i, j] = U2[j, i] = 1
+            pairs.append((f"QubitUnitary on {n} wires differing in the middle of the matrix", qp.QubitUnitary(U1, wires=range(n)), qp.QubitUnitary(U2, wires=range(n))))
+            M = np.eye(2 ** n)
+            M[i, i] = -1
+            pairs.append((f"Hermitian on {n} wires differing in one middle entry", qp.Hermitian(np.eye(2 ** n), wires=range(n)), qp.Hermitian(M, wires=range(n))))
+        v1 = np.zeros(2 ** 11)
+        v1[0] = 1
+        v2 = np.zeros(2 ** 11)
+        v2[1000] = 1
+        pairs.append(("StatePrep on 11 wires, different basis state in the middle", qp.StatePrep(v1, wires=range(11)), qp.StatePrep(v2, wires=range(11))))
+        pairs.append(("RX angles 1e-3 apart", qp.RX(0.3, 0), qp.RX(0.301, 0)))
+        pairs.append(("Rot differing in the last angle", qp.Rot(0.1, 0.2, 0.3, 0), qp.Rot(0.1, 0.2, 0.31, 0)))
+        pairs.append(("PauliRot words", qp.PauliRot(0.3, "XY", [0, 1]), qp.PauliRot(0.3, "YX", [0, 1])))
+        for what, a, b in pairs:
+            if hash(a) == hash(b) or qp.tape.QuantumScript([a]).hash == qp.tape.QuantumScript([b]).hash:
+                return Outcome(REFUTED, "native", f"operators that differ share a cache key: {what}", witness=dict(pair=what),
+                               replay=dict(confirmed=True, observed="equal hashes", expected="different hashes"))
+        return Outcome(DISCHARGED, "native(bounded)", f"{len(pairs)} structured pairs of differing operators get different keys", extra=dict(bounded=True))
+    plan.add(Obligation("C05/operator-hash/post:structured-pairs-get-different-keys", "post", separation, bounded=True, timeout=300,
+                        func=(OP2, "_canonicalize_dynamic")))
+
+
+def key_replay(wit):
+    """replay of a relational counter-model: QubitUnitary of a diagonal unitary with the model's real / imaginary pattern"""
+    try:
+        import numpy as np
+        def fr(s):
+            from fractions import Fraction
+            return float(Fraction(str(s).replace("?", ""))) if "/" in str(s) or str(s).lstrip("-").replace(".", "").isdigit() else 0.0
+        if "period" in wit:
+            return dict(confirmed=None, note="periodic-name case: no generic native replay")
+        za, zb = complex(fr(wit.get("re_A", 0)), fr(wit.get("im_A", 0))), complex(fr(wit.get("re_B", 0)), fr(wit.get("im_B", 0)))
+        # the same (re, im) pattern on the unit circle: conjugate phases (equal real parts) / different phases
+        t = 0.4321
+        # any two DIFFERENT operators with equal hashes confirm the refuted obligation: pairs that differ only in the imaginary
+        # part / only in the real part / in both, in the pattern of the model
+        da = np.array([np.exp(1j * t), np.exp(-1j * t)])
+        cands = [np.array([np.exp(-1j * t), np.exp(1j * t)]), np.array([np.exp(1j * (np.pi - t)), np.exp(-1j * (np.pi - t))]),
+                 np.array([np.exp(1j * (t + 0.1)), np.exp(-1j * (t + 0.1))])]
+        tried = []
+        for mk in (lambda d: qp.QubitUnitary(np.diag(d), wires=0), lambda d: qp.DiagonalQubitUnitary(d, wires=0)):
+            for db in cands:
+                a, b = mk(da), mk(db)
+                tried.append((repr(b)[:70], hash(a) == hash(b)))
+                if hash(a) == hash(b):
+                    return dict(confirmed=True, A=repr(a), B=repr(b), hash_equal=True, model=[str(za), str(zb)])
+        return dict(confirmed=False, tried=tried, model=[str(za), str(zb)])
+    except Exception as ex:  # pylint: disable=broad-except
+        return dict(confirmed=None, note=f"replay failed: {ex}")
